@@ -104,6 +104,8 @@ PROPS['C12'] = dict(
     mc=dict(quick=[mc('MC_Builder', 'MC_Builder.cfg', expect_min_distinct=100000), mc('MC_BitmapBuild', 'MC_BitmapBuild_q.cfg', expect_min_distinct=10000)],
             thorough=[mc('MC_Builder', 'MC_Builder_t.cfg', expect_min_distinct=100000), mc('MC_BitmapBuild', 'MC_BitmapBuild.cfg', expect_min_distinct=100000)]),
     need_kinds=['of', 'ofmany', 'toarray', 'bld'],
+    apalache=dict(quick=[dict(module='BuilderInd', cinit='CInitQ', runs=[('Init', 'IndInv', 0), ('IndInit', 'IndInv', 1)], refute=[('IndInit', 'BadNeverGrows', 1)])],
+                  thorough=[dict(module='BuilderInd', cinit='CInitT', runs=[('Init', 'IndInv', 0), ('IndInit', 'IndInv', 1)], refute=[('IndInit', 'BadNeverGrows', 1)])]),
     rule='of: ascending position lists (empty, word-boundary positions, large gaps) x optional n (negative, below/at/above last+1, 64k, 64k+-1) with Get/Get1/SafeGet/SafeGet1 probes at every listed position +-1 and outside; '
          'ofmany: 0-4 segments incl. size 0 and overshooting last segments; toarray: pattern bitmaps with Of(ToArray(b)); bld: Builder histories (random and TLC-simulated) with the projected state after every call; '
          'distinct = distinct inputs, non-trivial = non-empty list or explicit n / at least one call after NewBuilder',
